@@ -158,6 +158,9 @@ pub enum Ev {
     Stats { slots: usize, occupied: usize, lifecycle_len: usize, lifecycle_distinct: usize, heap: usize, idles: usize, pending_continue: bool },
     Epoll { entries: Vec<(i32, u32, u64)> },
     /// result of adapt_io: adapter index when Ok; O_NONBLOCK flag of the fd right after the call
+    /// the case exceeded its callback budget (a history that multiplies its own events, e.g. by enabling an
+    /// enabled source again and again): nothing after this entry is judged
+    Exhausted,
     Adapted { a: Option<usize>, nonblocking_after: bool },
     /// outcome of the single poll of readable()/writable()
     AsyncPolled { a: usize, ready: bool },
